@@ -1,6 +1,7 @@
 --------------------------- MODULE Trace_Importer ---------------------------
-(* case = [id, importer, rows, bals, obs = [exit, parses, accepted, fixpoint,     *)
-(*   trx : Seq([z, cur, eff]), asserts : Seq([z, cur, bal]), others : Int]]       *)
+(* case = [id, importer, rows, bals, prices, obs = [exit, parses, accepted,       *)
+(*   fixpoint, trx : Seq([z, effs : Seq([c, v])]), asserts : Seq([z, cur, bal]),  *)
+(*   prices : Seq([z, p, c, t]), others : Int]]                                   *)
 EXTENDS Importer, Json, TLC
 Cases == ndJsonDeserialize("cases.ndjson")
 VARIABLES i, failed
@@ -11,6 +12,7 @@ Why(c) ==
   ELSE IF ~Faithful(c.rows, c.obs.trx) THEN "transaction-date-amount-or-currency-differs-from-the-row"
   ELSE IF c.obs.others # 0 THEN "emitted-something-the-statement-does-not-carry"
   ELSE IF ~AssertionsCarried(c.bals, c.obs.asserts) THEN "assertion-not-carried-by-the-statement"
+  ELSE IF ~PricesCarried(c.prices, c.obs.prices) THEN "prices-differ-from-the-statement"
   ELSE IF ~c.obs.accepted THEN "output-not-accepted-once-accounts-are-opened"
   ELSE IF ~c.obs.fixpoint THEN "output-is-not-reprinted-unchanged"
   ELSE "ok"
